@@ -222,6 +222,17 @@ CHECKS['C03'] = dict(
     technique='generator-with-independent-oracle exploration (compositional Lean proof pending the parser model)',
     ref='DESIGN.md section 5, C03')
 
+CHECKS['C13'] = dict(
+    category='exploration',
+    text='Interim level: documents are written from generated trees by a writer that records the line of every block; the '
+         'recorded lines are compared with token.line_number for every block token at every depth (quotes, list items incl. '
+         'items beginning with a blank line, tables with rows and cells, lazy lines, definitions and leading blank lines), '
+         'under the Html and Markdown token sets. The Lean proof with ghost line origins over the block-parser model is the '
+         'planned upgrade.',
+    note='Trusted: gen_tree.py as oracle for block lines. Interim level, see DESIGN.md C13.',
+    technique='generator-with-oracle exploration of line numbers (Lean ghost-origin proof pending the block-parser model)',
+    ref='DESIGN.md section 5, C13')
+
 NOT_YET = {}
 
 
